@@ -21,6 +21,9 @@ def verify(d):
     try:
         subprocess.check_call(["git", "-C", "/repo", "worktree", "add", "-q", "--detach", wt, "HEAD"])
         env = dict(os.environ, PYTHONPATH=wt, PYTHONDONTWRITEBYTECODE="1")
+        # run the demonstration from inside the scratch tree (some demos locate the library relative to their own path)
+        os.makedirs(os.path.join(wt, "_out"), exist_ok=True)
+        demo = shutil.copy(demo, os.path.join(wt, "_out", "demo.py"))
         r0 = sh([PY, demo], cwd=wt, env=env)
         out["demo_without"] = r0.returncode
         a = sh(["git", "-C", wt, "apply", patch])
@@ -40,15 +43,9 @@ def verify(d):
 
 
 def suite_with_patch(patch):
-    """Run the pinned suite on HEAD + patch."""
-    st = sh(["git", "-C", "/repo", "status", "--porcelain"])
-    assert not st.stdout.strip(), "/repo not clean"
-    subprocess.check_call(["git", "-C", "/repo", "apply", patch])
-    try:
-        r = sh(["/verif/tools/suite.py", "WORKTREE", "-n", "6"])
-    finally:
-        subprocess.check_call(["git", "-C", "/repo", "checkout", "--", "."])
-    return r.stdout.strip().splitlines()
+    """Run the pinned suite on HEAD + patch (in a scratch worktree; /repo is not touched)."""
+    r = sh(["/verif/tools/suite.py", "PATCH:" + os.path.abspath(patch), "-n", "6"])
+    return [l.replace("commit=PATCH:" + os.path.abspath(patch), "commit=HEAD+patch") for l in r.stdout.strip().splitlines()]
 
 
 def detect(patch, props=None):
